@@ -78,9 +78,10 @@ class FaultRNG(SpyRNG):
     discrete quantile search raises sporadically in the library's custom distributions ('updating stopped, endless loop'), so that a generation
     breaks off mid-way at a chosen point instead of once in a few hundred draws."""
 
-    def __init__(self, seed, fail_at):
+    def __init__(self, seed, fail_at, count_choices=False):
         super().__init__(seed)
         self.fail_at = fail_at
+        self.count_choices = count_choices  # False: only variate requests (the draws of a distribution) are counted
         self.requests = 0
         self.fired = False
 
@@ -92,6 +93,8 @@ class FaultRNG(SpyRNG):
         return super()._log(kind, r, args)
 
     def choice(self, *a, **k):
+        if not self.count_choices:
+            return super().choice(*a, **k)
         self.requests += 1
         if self.requests == self.fail_at:
             self.fired = True
